@@ -3,6 +3,7 @@
 #include "../core/gen.hpp"
 #include "../core/patchmodel.hpp"
 #include "../core/corpus.hpp"
+#include "../core/binseeds.hpp"
 #include <cstring>
 #include <cstdlib>
 #include <exception>
@@ -102,6 +103,11 @@ MVal generate(const std::string& profile, uint64_t seed, uint64_t idx) {
     if (has_need(g.needs, "jmespath")) plan.set("jmespath", MVal::str(r.pick(jmespaths)));
     if (has_need(g.needs, "schema")) { const SchemaCase& sc = r.pick(schemas); plan.set("schema", MVal::parse(sc.schema)); plan.set("instance", MVal::parse(sc.inst)); }
     if (has_need(g.needs, "csv")) plan.set("csv", MVal::str(gen_csv(r)));
+    {
+        const char* const* seeds = has_need(g.needs, "seed_cbor") ? sim::binseeds::cbor() : has_need(g.needs, "seed_msgpack") ? sim::binseeds::msgpack()
+                                 : has_need(g.needs, "seed_ubjson") ? sim::binseeds::ubjson() : has_need(g.needs, "seed_bson") ? sim::binseeds::bson() : nullptr;
+        if (seeds) { size_t n = 0; while (seeds[n]) ++n; plan.set("bytes_hex", MVal::str(seeds[r.below(n)])); }
+    }
     if (has_need(g.needs, "patch") || has_need(g.needs, "badpatch") || has_need(g.needs, "diffpatch")) {
         GenOpts pg = go; pg.doubles = false;
         MVal d = gen_value(r, pg);
@@ -136,7 +142,7 @@ Result execute(MVal& plan, Stats& st) {
     for (auto& x : registry()) if (name == x.name) g = &x;
     if (!g) { res.fail("harness:invalid-plan", "unknown scenario " + name); res.ok = true; res.cls = "invalid-plan"; return res; }
     uint64_t only = plan.getu("n") ? plan.getu("n") : plan.getu("sub"), resume = plan.getu("resume_sub");
-    uint64_t shape = fnv1a(plan_text(plan, "doc")) ^ fnv1a(plan_text(plan, "patch")) ^ fnv1a(plan.gets("lhs_kind") + "/" + plan.gets("rhs_kind") + "/" + plan.gets("op"));
+    uint64_t shape = fnv1a(plan_text(plan, "doc")) ^ fnv1a(plan.gets("bytes_hex")) * 31 ^ fnv1a(plan_text(plan, "patch")) ^ fnv1a(plan.gets("lhs_kind") + "/" + plan.gets("rhs_kind") + "/" + plan.gets("op"));
     uint64_t h = fnv1a(name);
     uint64_t mism0 = ledger::size_mismatches(), badfree0 = ledger::bad_frees();
 
